@@ -332,6 +332,14 @@ def _chain(f, local, kinds=("ref", "use", "cast", "tuple", "array")):
     return seen
 
 
+def _const_table(c):
+    """the strings of a named constant table (`const TABLES: [&str; 4] = [..]`), which the driver prints with its value"""
+    if not isinstance(c, dict) or not isinstance(c.get("evaluated"), str) or "&str" not in (c.get("ty") or ""):
+        return None
+    vals = [m.group(1) for m in re.finditer(r'"((?:[^"\\]|\\.)*)"', c["evaluated"])]
+    return vals or None
+
+
 def resolve_strs(f, local, depth=0, where=None):
     """the finite set of string constants a local can hold: constants, copies, elements of a constant array iterated by a `for`
     loop (into_iter / iter + next).  None when anything else can flow in."""
@@ -351,6 +359,11 @@ def resolve_strs(f, local, depth=0, where=None):
                             out.add(o["c"]["str"])
                             if where is not None:
                                 where.setdefault(o["c"]["str"], set()).add(bb)
+                        elif _const_table(o["c"]):
+                            for v in _const_table(o["c"]):
+                                out.add(v)
+                                if where is not None:
+                                    where.setdefault(v, set()).add(bb)
                         else:
                             return None
                     else:
@@ -364,7 +377,13 @@ def resolve_strs(f, local, depth=0, where=None):
             c = x
             if c.dst and c.dst[0] != local:
                 continue      # `&mut` side effect of a call on an iterator: not a new value
-            if c.name in ("next", "into_iter", "iter", "copied", "cloned", "deref", "as_str", "clone", "borrow", "as_ref") and c.krate in ("core", "alloc", "std") and c.args and "p" in c.args[0]:
+            if c.name in ("into_iter", "iter") and c.krate in ("core", "alloc", "std") and c.args and "c" in c.args[0] and _const_table(c.args[0]["c"]):
+                # `for t in TABLES` over a named constant table
+                for v in _const_table(c.args[0]["c"]):
+                    out.add(v)
+                    if where is not None:
+                        where.setdefault(v, set()).add(bb)
+            elif c.name in ("next", "into_iter", "iter", "copied", "cloned", "deref", "as_str", "clone", "borrow", "as_ref") and c.krate in ("core", "alloc", "std") and c.args and "p" in c.args[0]:
                 r = resolve_strs(f, c.args[0]["p"][0], depth + 1, where)
                 if r is None:
                     return None
@@ -420,6 +439,7 @@ def dynamic_sites(f):
             text = pieces[0] + v + pieces[1]
             site = SqlSite(f, c.bb, text, Stmt(text))
             site.val_bbs = sorted(where.get(v, ()))      # where the interpolated constant is chosen (e.g. a match arm)
+            site.fmt_dst = c.dst[0] if c.dst else None   # the fmt::Arguments the text is formatted from
             out.append(site)
     return out
 
